@@ -16,15 +16,16 @@
   flags: decimal bit mask 1 = P2SH, 2 = NULLDUMMY, 4 = CLEANSTACK, 8 = DISCOURAGE_UPGRADABLE_NOPS.
   stack: `,`-separated hex items, bottom first; `-` for the empty stack.
 
-  The concrete `Env` lives here (not in Model/Spec): SHA-1 / RIPEMD-160 / SHA-256 from Crypto/*, and
-  `sigCheck` = driver-level transcription of `RawSignatureHash` (serialisation through Model.Wire,
-  Python index semantics for a negative in-range `inIdx`) + SEC1 point decoding + strict DER +
-  ECDSA verification from Crypto/Secp256k1.  The transaction must serialise (fields in wire range),
-  otherwise the request is answered `bad-args`.
+  The concrete `Env` is `Model.ScriptEval.Real.realEnv` (Model/ScriptEnvReal.lean): SHA-1 / RIPEMD-160 /
+  SHA-256 from Crypto/*, `sigCheck` = `Model.Sighash.rawSignatureHash` (C03's model) + SEC1 point
+  decoding + strict DER + ECDSA verification from Crypto/Secp256k1 — the very term the theorems of
+  Props/C06Concrete.lean are about.  The transaction must be in wire range (it serialises and
+  `from_tx` accepts it) and `inIdx` must be ≥ 0 or < −|vin|, otherwise the reply is `bad-args`.
 -/
 import Driver.Util
 import Driver.TxFmt
 import BtcVerif.Model.ScriptEval
+import BtcVerif.Model.ScriptEnvReal
 import BtcVerif.Spec.ScriptRef
 import BtcVerif.Model.Wire
 import BtcVerif.Crypto.Sha256
@@ -36,66 +37,14 @@ import BtcVerif.Crypto.Der
 namespace Driver.C06
 open BtcVerif Driver BtcVerif.Spec.Script
 
-def hashOne : Bytes := 1 :: List.replicate 31 0
+/-- the concrete environment is `Model.ScriptEval.Real` (the term Props/C06Concrete.lean talks about) -/
+def concreteEnv (tx : Tx) (inIdx : Int) : Env := Model.ScriptEval.Real.realEnv tx inIdx.toNat
 
-/-- Python `l[i]` position for an int index -/
-def effIdx (len : Nat) (i : Int) : Option Nat :=
-  if 0 ≤ i then (if i.toNat < len then some i.toNat else none)
-  else if (-i).toNat ≤ len then some (len - (-i).toNat) else none
+def mkCtx (tx : Tx) (inIdx : Int) : Model.ScriptEval.Ctx := Model.ScriptEval.Real.realCtx tx inIdx
 
-def blankTxOut : TxOut := { nValue := -1, scriptPubKey := [] }
-
-/-- `FindAndDelete(script, CScript([OP_CODESEPARATOR]))` on a script that parses -/
-def stripCodesep (script : Bytes) : Bytes :=
-  match Model.ScriptEval.findAndDelete ⟨[], [], 0⟩ script [0xab] with
-  | .ok b => b
-  | .error _ => script
-
-/-- script.py `RawSignatureHash(script, txTo, inIdx, hashtype)[0]`, on the inputs for which it
-    returns (the raising cases are explicit in `Model.ScriptEval.checkSig`) -/
-def rawSigHash (tx : Tx) (inIdx : Int) (script : Bytes) (ht : Nat) : Bytes :=
-  if inIdx ≥ (tx.vin.length : Int) then hashOne else
-  match effIdx tx.vin.length inIdx with
-  | none => hashOne
-  | some k =>
-    let sc := stripCodesep script
-    let vin1 := (tx.vin.map fun i => { i with scriptSig := [] }).modify k (fun i => { i with scriptSig := sc })
-    let zeroOthers := vin1.mapIdx fun j i => if (j : Int) ≠ inIdx then { i with nSequence := 0 } else i
-    let m := ht % 32
-    let pruned : Option (List TxIn × List TxOut) :=
-      if m = 2 then some (zeroOthers, [])
-      else if m = 3 then
-        (if inIdx ≥ (tx.vout.length : Int) then none else
-         match effIdx tx.vout.length inIdx with
-         | none => none
-         | some ko =>
-           match tx.vout[ko]? with
-           | none => none
-           | some tmp => some (zeroOthers, List.replicate inIdx.toNat blankTxOut ++ [tmp]))
-      else some (vin1, tx.vout)
-    match pruned with
-    | none => hashOne
-    | some (vin2, vout2) =>
-      let vin3 := if ht / 128 % 2 = 1 then (match vin2[k]? with | some x => [x] | none => []) else vin2
-      match Model.Wire.serTx { tx with vin := vin3, vout := vout2, wit := [] } with
-      | .ok s => Crypto.hash256 (s ++ leBytes 4 ht)
-      | .error _ => hashOne
-
-/-- `CECKey.set_pubkey` + `CECKey.verify` on the property's signature domain -/
-def ecdsaCheck (body pubkey digest : Bytes) : Bool :=
-  match Crypto.Secp256k1.decode pubkey, Crypto.Secp256k1.derDecodeStrict body with
-  | some P, some (r, s) => Crypto.Secp256k1.verify P (Crypto.Secp256k1.digestNat digest) r s
-  | _, _ => false
-
-def concreteHashes : Hashes :=
-  { sha1 := Crypto.sha1, ripemd160 := Crypto.ripemd160, sha256 := Crypto.sha256 }
-
-def concreteEnv (tx : Tx) (inIdx : Int) : Env :=
-  { hashes := concreteHashes
-    sigCheck := fun body pubkey script ht => ecdsaCheck body pubkey (rawSigHash tx inIdx script ht) }
-
-def mkCtx (tx : Tx) (inIdx : Int) : Model.ScriptEval.Ctx :=
-  { env := concreteEnv tx inIdx, inIdx := inIdx, nVin := tx.vin.length, nVout := tx.vout.length }
+/-- a negative `inIdx` that Python would accept as an index from the end (−|vin| ≤ inIdx < 0) is outside the
+    modelled domain of the signature hash (C03 takes a natural index): such requests are refused -/
+def idxOk (tx : Tx) (inIdx : Int) : Bool := decide (0 ≤ inIdx) || decide (inIdx < -(tx.vin.length : Int))
 
 def parseFlags? (s : String) : Option Flags := do
   let n ← parseNat? s
@@ -114,9 +63,9 @@ def showErr (e : Model.ScriptEval.Err) : String := "err:" ++ e.toExc.family
 
 /-- the transaction must serialise, so that the sighash transcription has no error branch -/
 def txOk (tx : Tx) : Bool :=
-  match Model.Wire.serTx tx with
-  | .ok _ => true
-  | .error _ => false
+  match Model.Wire.serTx tx, Model.Sighash.fromTx tx with
+  | .ok _, .ok _ => true
+  | _, _ => false
 
 def evalBoth (script : Bytes) (stack : List Bytes) (fl : Flags) (tx : Tx) (inIdx : Int) : String :=
   let m := match Model.ScriptEval.evalScript (mkCtx tx inIdx) fl stack script with
@@ -139,7 +88,7 @@ def verifyBoth (sig spk : Bytes) (fl : Flags) (tx : Tx) (inIdx : Int) : String :
 def stepReply (kind a0 a1 fl tx idx : String) : String :=
   match parseHex? a0, parseFlags? fl, TxFmt.parseTx? tx, parseInt? idx with
   | some a0, some fl, some tx, some idx =>
-      if !txOk tx then badArgs
+      if !(txOk tx && idxOk tx idx) then badArgs
       else if kind == "e" then
         (match parseStack? a1 with
          | some st => evalBoth a0 st fl tx idx
@@ -168,12 +117,12 @@ def handle (op : String) (args : List String) : Option String :=
   | "c06.eval", [sc, st, fl, tx, idx] => some <|
       match parseHex? sc, parseStack? st, parseFlags? fl, TxFmt.parseTx? tx, parseInt? idx with
       | some sc, some st, some fl, some tx, some idx =>
-          if txOk tx then evalBoth sc st fl tx idx else badArgs
+          if txOk tx && idxOk tx idx then evalBoth sc st fl tx idx else badArgs
       | _, _, _, _, _ => badArgs
   | "c06.verify", [sig, spk, fl, tx, idx] => some <|
       match parseHex? sig, parseHex? spk, parseFlags? fl, TxFmt.parseTx? tx, parseInt? idx with
       | some sig, some spk, some fl, some tx, some idx =>
-          if txOk tx then verifyBoth sig spk fl tx idx else badArgs
+          if txOk tx && idxOk tx idx then verifyBoth sig spk fl tx idx else badArgs
       | _, _, _, _, _ => badArgs
   | "c06.num", [v] => some <|
       match parseInt? v with
